@@ -196,14 +196,17 @@ def run_accounts(ctx):
         r1 = [("r1-storage.cfg", dict(addr=q("A"), code="", skey=q("k1"), sval=q("v1"), changes="ChSto",
                                       depth=7 if qk else 9)),
               ("r1-mixed.cfg", dict(depth=3 if qk else 4)),
-              ("r1-two-keys.cfg", dict(addr=q("A", "B"), code="", skey=q("k1", "k2"), sval=q("v1", "v2"),
-                                       changes="ChSto2", depth=3 if qk else 4))]
+              ("r1-two-keys.cfg", dict(addr=q("A", "B") if qk else q("A", "B", "C"), code="", skey=q("k1", "k2"),
+                                       sval=q("v1", "v2"), changes="ChSto2", depth=3))]
     else:
         r1 = [("r1-code.cfg", dict(addr=q("A", "B", "C") if not qk else q("A", "B"), code=q("c1", "c2"), skey="", sval="",
-                                   changes="ChCode", depth=4 if qk else 5)),
+                                   changes="ChCode", depth=4)),
               ("r1-mixed.cfg", dict(depth=3 if qk else 4)),
               ("r1-code-storage.cfg", dict(addr=q("A", "B"), code=q("c1"), skey=q("k1"), sval=q("v1"),
-                                           changes="ChCodeSto", depth=4 if qk else 5))]
+                                           changes="ChCodeSto", depth=3 if qk else 4))]
+        if not qk:
+            r1.append(("r1-code-deep.cfg", dict(addr=q("A", "B"), code=q("c1", "c2"), skey="", sval="",
+                                                changes="ChCode", depth=5)))
     for name, kw in r1:
         acc_cfg(sd, name, rest="VIEW cvars\nCONSTRAINT DepthBound\n" + ACC_INV, **kw)
         r = ctx.tlc(sd, "MC_Accounts", name, timeout=1500, coverage=not qk)
@@ -233,13 +236,19 @@ def run_accounts(ctx):
     # ---- R2a: transition cover of small configurations (one behaviour per transition of the state graph)
     if c06:
         gens = [("gen-storage.cfg", dict(spec="GenCoreSpec", addr=q("A"), code="", skey=q("k1"), sval=q("v1"),
-                                         changes="ChSto", depth=7 if qk else 8)),
-                ("gen-mixed.cfg", dict(spec="GenSpec", depth=4 if qk else 5))]
+                                         changes="ChSto", depth=7)),
+                ("gen-mixed.cfg", dict(spec="GenSpec", depth=4))]
+        if not qk:
+            gens.append(("gen-storage-2.cfg", dict(spec="GenCoreSpec", addr=q("A", "B"), code="", skey=q("k1"), sval=q("v1"),
+                                                   changes="ChSto", depth=5)))
     else:
         gens = [("gen-code.cfg", dict(spec="GenCoreSpec", addr=q("A", "B"), code=q("c1", "c2"), skey="", sval="",
-                                      changes="ChCode", depth=5 if qk else 6)),
+                                      changes="ChCode", depth=5)),
                 ("gen-code-storage.cfg", dict(spec="GenCoreSpec", addr=q("A", "B"), code=q("c1"), skey=q("k1"), sval=q("v1"),
-                                              changes="ChCodeSto", depth=4 if qk else 5))]
+                                              changes="ChCodeSto", depth=4))]
+        if not qk:
+            gens.append(("gen-code-3.cfg", dict(spec="GenCoreSpec", addr=q("A", "B", "C"), code=q("c1", "c2"), skey="",
+                                                sval="", changes="ChCode", depth=4)))
     first = None
     for name, kw in gens:
         acc_cfg(sd, name, log="LogAppend", rest="VIEW cvars\nACTION_CONSTRAINT EmitEdge", **kw)
@@ -254,7 +263,7 @@ def run_accounts(ctx):
     acc_cfg(sd, "sim.cfg", spec="SimSpec", addr=q("A", "B", "C"), code=q("c1", "c2"), skey=q("k1", "k2"),
             sval=q("v1", "v2"), changes="ChAll", log="LogAppend", depth=16, rest="ACTION_CONSTRAINT EmitFull")
     sim = ctx.path("sim.ndjson")
-    ctx.tlc(sd, "MC_Accounts", "sim.cfg", simulate=150 if qk else 3000, depth=16, timeout=1500, behaviours_out=sim)
+    ctx.tlc(sd, "MC_Accounts", "sim.cfg", simulate=150 if qk else 1500, depth=16, timeout=1500, behaviours_out=sim)
     replay(ctx, exe, "replay", sim)
 
     # ---- R3: random histories on the real AccountsDB (6 accounts, 3 codes, 4 keys; removal followed by re-creation
@@ -326,13 +335,13 @@ def run_storage(ctx):
 
     # ---- R1: intended design (SaveKeyValue copies; deleted key reads empty)
     inv = "INVARIANTS TypeOK Inv_C08_ReadBack Inv_C08_DeletedReadsEmpty"
-    dt_cfg(sd, "r1.cfg", shapes=q("empty", "x", "KA", "xKA") if qk else shapes_all, depth=3,
+    dt_cfg(sd, "r1.cfg", shapes=q("empty", "x", "KA", "xKA") if qk else q("empty", "x", "KA", "xKA", "KAKA"), depth=3,
            addrs="MCAddrsSmall" if qk else "MCAddrsBoth", cap=12 if qk else 76,
            rest="VIEW cvars\nCONSTRAINT DepthBound\n" + inv)
     r = ctx.tlc(sd, "MC_DataTrie", "r1.cfg", timeout=1500, coverage=not qk)
     if not qk:
         vacuity(ctx, r, "r1.cfg")
-        dt_cfg(sd, "r1-deep.cfg", keys=q("p"), kb="MCKB1", shapes=q("empty", "x", "KA"), depth=6,
+        dt_cfg(sd, "r1-deep.cfg", keys=q("p"), kb="MCKB1", shapes=q("empty", "x", "KA"), depth=5,
                layouts=q("fresh", "val-spare", "key-then-val", "val-then-key"),
                rest="VIEW cvars\nCONSTRAINT DepthBound\n" + inv)
         ctx.tlc(sd, "MC_DataTrie", "r1-deep.cfg", timeout=1500)
@@ -355,7 +364,9 @@ def run_storage(ctx):
     dt_cfg(sd, "gen.cfg", spec="GenSpec", log="LogAppend", depth=3, shapes=q("empty", "x", "KA") if qk else q("empty", "x", "KA", "xKA"),
            addrs="MCAddrsSmall", rest="VIEW cvars\nACTION_CONSTRAINT EmitEdge")
     out = ctx.path("gen8.ndjson")
-    g = ctx.tlc(sd, "MC_DataTrie", "gen.cfg", timeout=1500, behaviours_out=out)
+    # one worker: with VIEW, states are reachable by paths of different length and only strict breadth-first order
+    # makes the set of exported transitions deterministic
+    g = ctx.tlc(sd, "MC_DataTrie", "gen.cfg", timeout=1500, behaviours_out=out, workers=1)
     if g.ok and g.behaviours == 0:
         ctx.broken.append("behaviour export produced nothing")
     replay(ctx, exe, "replay8", out)
@@ -363,14 +374,14 @@ def run_storage(ctx):
         dt_cfg(sd, "gen32.cfg", spec="GenSpec", log="LogAppend", depth=3, shapes=q("empty", "xyx", "KAKA"), keys=q("p"), kb="MCKB1",
                addrs="MCAddrs32", cap=140, rest="VIEW cvars\nACTION_CONSTRAINT EmitEdge")
         out32 = ctx.path("gen8-32.ndjson")
-        ctx.tlc(sd, "MC_DataTrie", "gen32.cfg", timeout=1500, behaviours_out=out32)
+        ctx.tlc(sd, "MC_DataTrie", "gen32.cfg", timeout=1500, behaviours_out=out32, workers=1)
         replay(ctx, exe, "replay8", out32)
 
     # ---- R2b: sampled random walks: all shapes, 3 keys (one a prefix of another), 2- and 32-byte address
     dt_cfg(sd, "sim.cfg", spec="SimSpec", log="LogAppend", depth=14, keys=q("p", "pq", "q"), kb="MCKB", shapes=shapes_all,
            addrs="MCAddrsBoth", cap=140, rest="ACTION_CONSTRAINT EmitFull")
     sim = ctx.path("sim8.ndjson")
-    ctx.tlc(sd, "MC_DataTrie", "sim.cfg", simulate=200 if qk else 4000, depth=14, timeout=1500, behaviours_out=sim)
+    ctx.tlc(sd, "MC_DataTrie", "sim.cfg", simulate=200 if qk else 2000, depth=14, timeout=1500, behaviours_out=sim)
     replay(ctx, exe, "replay8", sim)
 
     # ---- R3: random writes with arbitrary caller slices on the real tracker -> TLC evaluates C08 on every observed state
